@@ -12,6 +12,7 @@ import (
 	"errors"
 	"fmt"
 
+	"github.com/ipfs/go-peertaskqueue"
 	"github.com/ipfs/go-peertaskqueue/peertask"
 	"github.com/ipld/go-ipld-prime/datamodel"
 	"github.com/ipld/go-ipld-prime/traversal"
@@ -86,6 +87,10 @@ type Env struct {
 	Unprotects   map[string]int
 }
 
+// PerPeerMax, when set before NewEnv, configures the response queue like
+// impl.New does for MaxInProgressIncomingRequestsPerPeer.
+var PerPeerMax int
+
 func NewEnv(dag *kit.DAG, has []bool, workers int, maxLinksGlobal uint64, total, perPeer uint64) *Env {
 	e := &Env{
 		ReqVerdict: map[key]int{}, ReqHookExt: map[key]bool{}, BlockPauseAt: map[key]int{}, MaxLinks: map[key]uint64{},
@@ -96,7 +101,11 @@ func NewEnv(dag *kit.DAG, has []bool, workers int, maxLinksGlobal uint64, total,
 	e.S = kit.NewStack(total, perPeer, 1)
 	e.Ctx, e.Cancel = e.S.Ctx, e.S.Cancel
 	e.Store = kit.NewStore(dag, has)
-	e.TQ = taskqueue.NewTaskQueue(e.Ctx)
+	if PerPeerMax > 0 {
+		e.TQ = taskqueue.NewTaskQueue(e.Ctx, peertaskqueue.MaxOutstandingWorkPerPeer(PerPeerMax))
+	} else {
+		e.TQ = taskqueue.NewTaskQueue(e.Ctx)
+	}
 	e.Chooser = kit.Chooser
 	e.RM = responsemanager.New(e.Ctx, e.Store.LinkSystem(), e.S.RA, e, e, e, e, e, e, e, e, maxLinksGlobal, func(obj any, stack string) { e.Panics = append(e.Panics, obj) }, e.TQ)
 	e.QE = queryexecutor.New(e.Ctx, &slowManager{ResponseManager: e.RM, e: e}, e, e)
